@@ -65,7 +65,10 @@ def build() -> Check:
             tree_op = (e.kind == "EXT" and ("_parent_to_children" in e.data["recv"] or "_parent_done" in e.data["recv"] or e.data["recv"].startswith("{}["))) \
                 or e.kind == "MARK_ORPHANS"
             if tree_op and not (enters and enters[0] < i and (not exits or i < exits[0])):
-                b_lock.append((f"{e.brief()} happens outside the parent-done lock", t))
+                in_other = any(a < i for a in enters[1:]) if enters else False
+                b_lock.append((f"{e.brief()} happens outside the parent-done lock" + (
+                    " region that covers the orphan guard and the enqueue (it sits in a later critical section of the same lock: between the two, "
+                    "updates of descendants pass the guard although the completion record is already queued)" if in_other else ""), t))
         d = dict(t.pc)
         typ = d.get("update.operation_type=?OperationType")
         act = d.get("update.action=?OperationAction")
